@@ -6,5 +6,5 @@ Extraction "Extract/m_difffmt.ml"
   DiffFmt.dec DiffFmt.enc DiffFmt.quote_c_style DiffFmt.render
   DiffFmt.parse_added DiffFmt.parse_added_with_insertions DiffFmt.parse_hunk_header
   DiffFmt.unescape_git_path DiffFmt.normalize_diff_path_token DiffFmt.plus_header
-  DiffFmt.added_lines DiffFmt.insertion_lines DiffFmt.wf_doc DiffFmt.Known_C01_fmt
+  DiffFmt.added_lines DiffFmt.insertion_lines DiffFmt.wf_doc
   DiffFmt.path_ok DiffFmt.utf8_valid.
